@@ -19,6 +19,11 @@ Theorem C14_log_new_ok :
 Proof. exact log_new_ok. Qed.
 Print Assumptions C14_log_new_ok.
 
+Theorem C14_abs_wf :
+  forall rw l, RepInv rw l -> ll_wf (abs l).
+Proof. exact abs_wf. Qed.
+Print Assumptions C14_abs_wf.
+
 (* ---- (c) queries equal their plain-sequence definitions ---- *)
 Theorem C14_abs_base_first :
   forall rw l, RepInv rw l -> first_index l = Ok (ll_first (abs l)).
@@ -56,6 +61,12 @@ Theorem C14_last_term_abs :
                   end.
 Proof. exact last_term_abs. Qed.
 Print Assumptions C14_last_term_abs.
+
+Theorem C14_last_term_defined :
+  forall L,
+    ll_ents L <> [] \/ ll_bterm L <> None -> exists t, ll_term L (ll_last L) = SOk t.
+Proof. exact last_term_defined. Qed.
+Print Assumptions C14_last_term_defined.
 
 Theorem C14_is_up_to_date_abs :
   forall rw l i t lt,
@@ -189,6 +200,13 @@ Theorem C14_ll_range_nth :
     nth_error (ll_range L lo hi) (N.to_nat (j - lo)) = ll_get L j.
 Proof. exact ll_range_nth. Qed.
 Print Assumptions C14_ll_range_nth.
+
+Theorem C14_ll_range_length :
+  forall L lo hi,
+    ll_first L <= lo -> lo <= hi -> hi <= ll_last L + 1 ->
+    length (ll_range L lo hi) = N.to_nat (hi - lo).
+Proof. exact ll_range_length. Qed.
+Print Assumptions C14_ll_range_length.
 
 (* ---- (b) mutators act as list operations and preserve RepInv ---- *)
 Theorem C14_commit_to_ok :
@@ -405,6 +423,27 @@ Theorem C14_RepInv_open_window :
   forall rw l, RepInv rw l -> RepInv true l.
 Proof. exact RepInv_open_window. Qed.
 Print Assumptions C14_RepInv_open_window.
+
+Theorem C14_applied_to_unchecked_window :
+  forall rw l i,
+    RepInv rw l -> RepInv true (applied_to_unchecked l i).
+Proof. exact applied_to_unchecked_window. Qed.
+Print Assumptions C14_applied_to_unchecked_window.
+
+Theorem C14_trunc_append_size :
+  forall u ents u',
+    usize_ok u -> u_truncate_and_append u ents = Ok u' -> usize_ok u'.
+Proof. exact trunc_append_size. Qed.
+Print Assumptions C14_trunc_append_size.
+
+Theorem C14_usize_other_ops :
+  forall u,
+    usize_ok (u_new (u_offset u))
+    /\ (forall s, usize_ok (u_restore u s))
+    /\ (forall i t u', u_stable_entries u i t = Ok u' -> usize_ok u')
+    /\ (forall i u', usize_ok u -> u_stable_snap u i = Ok u' -> usize_ok u').
+Proof. exact usize_other_ops. Qed.
+Print Assumptions C14_usize_other_ops.
 
 (* ---- (e) committed_immutable and the exact fatal cases ---- *)
 Theorem C14_log_append_fatal_iff :
